@@ -159,6 +159,11 @@ FoldPairs(acc, xs, i, then) ==
 Eval(a) ==
     CASE a[1] = "nil"  -> Res(<<>>, 0, 0)
       [] a[1] = "term" -> Res(TermSet(a[2], a[3]), 0, 0)
+      \* ConditionsSet.invert cleans after every And step: negating a negation gives back (a cleaned form of) what was
+      \* negated, through intermediate sets no larger than those of the inner negation
+      [] a[1] = "not" /\ a[2][1] = "not" ->
+                          LET inner == Eval(a[2]) r == Eval(a[2][2]) IN
+                          IF inner.big \/ r.big THEN BIG ELSE Res(r.set, Max2(inner.max, r.max), Max2(inner.vol, r.vol))
       [] a[1] = "not"  -> LET r == Eval(a[2]) IN
                           IF r.big THEN BIG ELSE InvFrom(Res(<<>>, r.max, r.vol), r.set, 1)
       [] a[1] = "or"   -> FoldOr(Res(<<>>, 0, 0), a[2], 1)
@@ -631,12 +636,13 @@ EmitSim == (Len(seq) > 0 /\ Len(seq) \in {MaxLen \div 3, (2 * MaxLen) \div 3, Ma
                => PrintT("@@J" \o ToJson(Record))
 
 \* ---- sanity of the oracle itself, checked by TLC on every generated sequence ----
-\* -(-(-(port:81))) is beyond the bound, a single term is tiny, sizes are monotone under Or
+\* a single term is tiny, negations of negations stay as small as the inner negation (the inversion cleans between its steps;
+\* before that repair -(-(-(port:81))) was beyond the bound), sizes are monotone under Or
 SizeSanity ==
     /\ DNFSize(<<"term", "port", 1>>) = 2
     /\ DNFSize(<<"not", <<"term", "port", 1>>>>) = 4
-    /\ DNFSize(<<"not", <<"not", <<"term", "port", 1>>>>>>) = 16
-    /\ DNFSize(<<"not", <<"not", <<"not", <<"term", "port", 1>>>>>>>>) = Cap + 1
+    /\ DNFSize(<<"not", <<"not", <<"term", "port", 1>>>>>>) = 4
+    /\ DNFSize(<<"not", <<"not", <<"not", <<"term", "port", 1>>>>>>>>) = 4
     /\ DNFSize(<<"term", "port", 150>>) = 300
     /\ DNFVolume(<<"term", "port", 150>>) = 600
     /\ DNFVolume(<<"and", << <<"term", "port", 150>>, <<"not", <<"term", "tag", 40>>>> >> >>) = 300 * 42
